@@ -71,7 +71,7 @@ def judge(run, harness, behs, group, cfg=STRICT, known=KF, conf=None, batch=None
     traces = run.execute(harness[0], harness[1], harness[2], behs, tag="c10-" + group)
     t1 = time.time()
     rejected, done, a = 0, 0, 0
-    for size in (8, 40, len(traces)):
+    for size in (40, len(traces)):
         b = min(len(traces), a + size)
         if a >= b or len(run.violations) >= ENOUGH:
             break
@@ -122,12 +122,13 @@ def main(run: Run):
     rnd_api = simulate(run, "apikf", 300 if thorough else 60, 16, 0, True, "ApiAlways", s + 4,
                        workers=w if thorough else 1)
     # batch=1: a rejected trace costs one strict and one weakened TLC run, nothing is re-run
-    judge(run, WB, sd + rnd_wb[:few], "wbkf-strict", batch=1)
+    wb_sd = [b for b in sd if '"seed:api-readback' not in b]      # the API read-back seeds are judged on the API harness
+    judge(run, WB, wb_sd + rnd_wb[:few], "wbkf-strict", batch=1)
     # over the API the multi-cut DeleteStatement kills the server process: not executed there
     api_sd = [b for b in sd if '"seed:delstmt-multi"' not in b]
     api_strict = [b for b in api_sd if '"seed:api-readback' in b or '"seed:delpol-assigned"' in b]
     judge(run, API, (api_sd if thorough else api_strict) + rnd_api[:few], "apikf-strict", batch=1)
-    judge(run, WB, rnd_wb[few:], "wbkf", cfg=KF, known=None)
+    judge(run, WB, [b for b in sd if b not in wb_sd] + rnd_wb[few:], "wbkf", cfg=KF, known=None)
     judge(run, API, ([] if thorough else [b for b in api_sd if b not in api_strict]) + rnd_api[few:], "apikf",
           cfg=KF, known=None)
 
